@@ -513,3 +513,146 @@ def _structured(masked):
 
 CONTRACTS[_E + "structured"] = _structured(False)
 CONTRACTS[_E + "ma_structured"] = _structured(True)
+
+
+# ------------------------------------------------------------------------- estimator generators
+def _g_pos(rng, D, n, dup, latlon=False):
+    if latlon:
+        pos = np.vstack([rng.uniform(-80, 80, size=n), rng.uniform(-170, 170, size=n)])
+    elif rng.random() < 0.6:
+        pos = rng.integers(0, 4, size=(D, n)).astype(float)      # lattice: exact ties with bin edges
+    else:
+        pos = rng.normal(size=(D, n))
+    if n >= 2:
+        if dup:
+            pos[:, int(rng.integers(1, n))] = pos[:, 0]
+        else:
+            pos[0, :] += np.arange(n) * 2.0 ** -7                   # pairwise distinct points
+    return pos
+
+
+def _g_field(rng, F, n):
+    f = rng.normal(size=(F, n))
+    if rng.random() < 0.6:
+        f[rng.random((F, n)) < 0.25] = np.nan
+    return f
+
+
+def _g_edges(rng, latlon=False):
+    nb = int(rng.integers(1, 4))
+    if rng.random() < 0.6 and not latlon:
+        steps = rng.integers(1, 3, size=nb).astype(float)
+    else:
+        steps = rng.uniform(0.2, 1.5, size=nb) * (0.5 if latlon else 1.0)
+    first = 0.0 if rng.random() < 0.75 else float(rng.uniform(0.1, 1.0))
+    return np.concatenate([[first], first + np.cumsum(steps)])
+
+
+def _g_unstructured(rng, size):
+    latlon = rng.random() < 0.3
+    D = 2 if latlon else int(rng.integers(1, 4))
+    n = int(rng.integers(0, size + 1))
+    F = int(rng.integers(0, 3))
+    return {"f": _g_field(rng, F, n), "bin_edges": _g_edges(rng, latlon),
+            "pos": _g_pos(rng, D, n, rng.random() < 0.3, latlon),
+            "estimator_type": "mc"[int(rng.integers(0, 2))], "distance_type": "h" if latlon else "e",
+            "num_threads": [None, 1, 2][int(rng.integers(0, 3))]}
+
+
+def separated(direction, tol):
+    """the wrapper's _separate_dirs_test (documented meaning of separate_dirs)"""
+    ok = True
+    for a in range(direction.shape[0] - 1):
+        for b in range(a + 1, direction.shape[0]):
+            s = min(abs(float(np.dot(direction[a], direction[b]))), 1.0)
+            ok = ok and (np.arccos(s) >= 2 * tol)
+    return bool(ok)
+
+
+def _g_directional(rng, size):
+    D = int(rng.integers(1, 4))
+    n = int(rng.integers(0, size + 1))
+    F = int(rng.integers(1, 3))
+    Dn = int(rng.integers(0, 4))
+    if rng.random() < 0.6:
+        direction = np.eye(D)[rng.integers(0, D, size=Dn)] if Dn else np.zeros((0, D))
+        if Dn >= 2 and D >= 2 and rng.random() < 0.7:
+            direction = np.eye(D)[np.arange(Dn) % D]
+    else:
+        direction = rng.normal(size=(Dn, D))
+        direction /= np.maximum(np.linalg.norm(direction, axis=1, keepdims=True), 1e-12)
+    tol = [np.pi / 8, 0.3, 1.0][int(rng.integers(0, 3))]
+    sep = separated(direction, tol) if rng.random() < 0.8 else bool(rng.integers(0, 2))
+    return {"f": _g_field(rng, F, n), "bin_edges": _g_edges(rng), "pos": _g_pos(rng, D, n, rng.random() < 0.45),
+            "direction": np.ascontiguousarray(direction, dtype=float), "angles_tol": float(tol),
+            "bandwidth": [-1.0, 0.6, 2.5][int(rng.integers(0, 3))], "separate_dirs": sep,
+            "estimator_type": "mc"[int(rng.integers(0, 2))], "num_threads": [None, 1, 2][int(rng.integers(0, 3))]}
+
+
+def _coincident(inp):
+    p = inp["pos"]
+    n = p.shape[1]
+    return any(np.array_equal(p[:, a], p[:, b]) for a in range(n) for b in range(a + 1, n))
+
+
+def _g_structured(rng, size, masked=False):
+    n = int(rng.integers(0, size + 1))
+    J = int(rng.integers(0, 4))
+    inp = {"f": rng.normal(size=(n, J))}
+    if masked:
+        inp["mask"] = (rng.random((n, J)) < 0.35).astype(np.uint8)
+    inp["estimator_type"] = "mc"[int(rng.integers(0, 2))]
+    inp["num_threads"] = [None, 1, 2][int(rng.integers(0, 3))]
+    return inp
+
+
+def _g_dist(rng, size, hav=False):
+    D = 2 if hav else int(rng.integers(1, 4))
+    n = int(rng.integers(1, size + 2))
+    return {"dim": int(rng.integers(0, D + 1)) if not hav else 2, "pos": _g_pos(rng, D, n, rng.random() < 0.3, hav),
+            "i": int(rng.integers(0, n)), "j": int(rng.integers(0, n))}
+
+
+def _g_dir_test(rng, size):
+    D = int(rng.integers(1, 4))
+    n = int(rng.integers(1, size + 2))
+    Dn = int(rng.integers(1, 3))
+    pos = _g_pos(rng, D, n, rng.random() < 0.3)
+    direction = rng.normal(size=(Dn, D)) if rng.random() < 0.5 else np.eye(D)[rng.integers(0, D, size=Dn)].astype(float)
+    if rng.random() < 0.5:
+        direction = direction / np.maximum(np.linalg.norm(direction, axis=1, keepdims=True), 1e-12)
+    i, j, d = int(rng.integers(0, n)), int(rng.integers(0, n)), int(rng.integers(0, Dn))
+    true = float(np.sqrt(((pos[:, i] - pos[:, j]) ** 2).sum()))
+    s = abs(float(np.dot(pos[:, i] - pos[:, j], direction[d])))
+    dist = [true, 0.0, s, 0.5 * s, float(rng.uniform(0, 3))][int(rng.integers(0, 5))]
+    return {"dim": D, "pos": pos, "dist": dist, "direction": np.ascontiguousarray(direction),
+            "angles_tol": [np.pi / 8, 0.3, 1.0][int(rng.integers(0, 3))],
+            "bandwidth": [-1.0, 0.0, 0.6, 2.5][int(rng.integers(0, 4))], "i": i, "j": j, "d": d}
+
+
+def _g_norm(rng, size, vec=False):
+    n = int(rng.integers(0, size + 1))
+    if vec:
+        d = int(rng.integers(0, 3))
+        return {"variogram": rng.uniform(0, 5, size=(d, n)), "counts": rng.integers(0, 4, size=(d, n)).astype(np.int64)}
+    return {"variogram": rng.uniform(0, 5, size=n), "counts": rng.integers(0, 4, size=n + int(rng.integers(0, 2))).astype(np.int64)}
+
+
+_gt = lambda rng, size: {"estimator_type": "mc"[int(rng.integers(0, 2))]}
+CONTRACTS[_E + "unstructured"]["gen"] = _g_unstructured
+for _k in ("directional", "directional@definition"):
+    CONTRACTS[_E + _k]["gen"] = _g_directional
+CONTRACTS[_E + "directional@definition"]["classes"] = {"coincident": _coincident,
+                                                       "no_coincident": lambda inp: not _coincident(inp)}
+CONTRACTS[_E + "structured"]["gen"] = lambda rng, size: _g_structured(rng, size)
+CONTRACTS[_E + "ma_structured"]["gen"] = lambda rng, size: _g_structured(rng, size, True)
+CONTRACTS[_E + "dist_euclid"]["gen"] = lambda rng, size: _g_dist(rng, size)
+CONTRACTS[_E + "dist_haversine"]["gen"] = lambda rng, size: _g_dist(rng, size, True)
+CONTRACTS[_E + "dir_test"]["gen"] = _g_dir_test
+CONTRACTS[_E + "estimator_matheron"]["gen"] = lambda rng, size: {"f_diff": float(rng.normal())}
+CONTRACTS[_E + "estimator_cressie"]["gen"] = lambda rng, size: {"f_diff": float(rng.normal())}
+for _n in ("matheron", "cressie"):
+    CONTRACTS[_E + "normalization_" + _n]["gen"] = lambda rng, size: _g_norm(rng, size)
+    CONTRACTS[_E + "normalization_%s_vec" % _n]["gen"] = lambda rng, size: _g_norm(rng, size, True)
+for _n in ("choose_estimator_func", "choose_estimator_normalization", "choose_estimator_normalization_vec"):
+    CONTRACTS[_E + _n]["gen"] = _gt
